@@ -24,6 +24,20 @@ class Quiet(Model):
         return ()
 
 
+class PrivInl(Quiet):
+    """Quiet, and extracted helper code is analysed in the caller's context: private methods called on `self`/`cls` and
+    private module-level functions called by plain name are inlined."""
+
+    def inline(self, walker, op, callee, st):
+        nm = callee.name
+        if not nm.startswith('_') or nm.startswith('__'):
+            return False
+        if callee.cls is None:
+            return isinstance(op.val.func, ast.Name)
+        rv = op.recv_val
+        return isinstance(rv, ast.Name) and rv.id in ('self', 'cls')
+
+
 def paths_of(prog, fn, recv=None, model=None):
     w = Walker(prog, model or Quiet(prog))
     ps = [p for p in w.paths(fn, recv=recv) if p.kind != 'cutoff']
@@ -446,9 +460,9 @@ def check_identity_only(ctx, fn, param, rule, why):
            not bad, loc=loc(fn, bad[0]) if bad else loc(fn), detail='truthiness test at line %d' % bad[0].lineno if bad else '')
 
 
-def returned_values(prog, f, recv=None):
+def returned_values(prog, f, recv=None, model=None):
     """[(expanded value of the return, path)] for every normal return path of f (locals and call results substituted)."""
-    w, paths = paths_of(prog, f, recv=recv)
+    w, paths = paths_of(prog, f, recv=recv, model=model)
     out = []
     for p in paths:
         if p.kind == 'return':
@@ -549,10 +563,12 @@ class TryRaises(Quiet):
     """Exception edges exactly where the code expects them: a call or subscript lexically inside a `try` body may raise
     what that try's handlers name (nothing raises elsewhere)."""
 
-    def __init__(self, program, fn):
+    def __init__(self, program, fn, helpers=False):
         super().__init__(program)
         self.where = {}
-        for t in ast.walk(fn.node):
+        self.helpers = helpers
+        fns = with_helpers(program, fn) if helpers else [fn]
+        for t in [x for f in fns for x in ast.walk(f.node)]:
             if isinstance(t, ast.Try):
                 types = []
                 for h in t.handlers:
@@ -568,6 +584,9 @@ class TryRaises(Quiet):
                         for ty in types:
                             if ty not in self.where[id(n)]:
                                 self.where[id(n)].append(ty)
+
+    def inline(self, walker, op, callee, st):
+        return self.helpers and callee.cls is None and callee.name.startswith('_') and isinstance(op.val.func, ast.Name)
 
     def _types(self, op):
         tys = self.where.get(id(op.node), ())
@@ -632,3 +651,27 @@ def params_read(ctx, fn, rule='T19p', why='no accepted input is silently dropped
         if pn in ('self', 'cls') or pn.startswith('_'):
             continue
         ctx.ob(rule, fn.fq, 'parameter `%s` is read by the function (%s)' % (pn, why), pn in used, loc=loc(fn))
+
+
+def with_helpers(prog, fn, ci=None, depth=2):
+    """fn plus the private helpers it calls (methods of self resolved through ci, module-level functions called by plain
+    name), transitively up to `depth` levels: the scope in which an extracted piece of fn's body may live."""
+    out = [fn]
+    frontier = [fn]
+    for _ in range(depth):
+        nxt = []
+        for f in frontier:
+            for n in ast.walk(f.node):
+                if not isinstance(n, ast.Call):
+                    continue
+                h = None
+                if isinstance(n.func, ast.Attribute) and txt(n.func.value) in ('self', 'cls') and n.func.attr.startswith('_') and \
+                        not n.func.attr.startswith('__') and ci is not None:
+                    h = prog.resolve(ci, n.func.attr)
+                elif isinstance(n.func, ast.Name) and n.func.id.startswith('_') and n.func.id in f.module.functions:
+                    h = f.module.functions[n.func.id]
+                if isinstance(h, FuncInfo) and h not in out:
+                    out.append(h)
+                    nxt.append(h)
+        frontier = nxt
+    return out
